@@ -59,6 +59,20 @@ theorem self_match_router (cfg : Cfg) (u : Bytes) (hb : IsBytes u) (hwf : WFurl 
   unfold ruleMatches matchesKey
   rw [self_match cfg u hb hwf]; simp
 
+/-- **Exactly which URLs `PathAndQuery` accepts after `sanitize_url`** (so exactly when the request
+side sorts and re-encodes): not empty, sanitised length ≤ 65534, `*` or starting with `/` or `?`,
+no back-quote before the first `?`.  Every other byte `PathAndQuery` would reject is in the
+sanitising encode set. -/
+theorem accepted_syntax (u : Bytes) : (pqParse (sanitize u)).isSome = true ↔ AcceptedSyntax u :=
+  accepted_iff u
+
+/-- `WFurl`, spelled out. -/
+theorem wfurl_syntax (cfg : Cfg) (u : Bytes) :
+    WFurl cfg u = true ↔
+      AcceptedSyntax u ∧ (splitFirst 63 u).1 ≠ [] ∧
+      (paramsOf u).all (fun kv => !isMarketing cfg kv.1) = true ∧ EmptyParamAlone (paramsOf u) := by
+  rw [WFurl_iff, accepted_iff]
+
 /-- Each clause of `WFurl` is needed: witnesses (default marketing parameters). -/
 def cfgDefault : Cfg :=
   { ignoreCase := false, ignoreMarketing := true, passMarketing := true,
